@@ -1,6 +1,8 @@
 package checks
 
 import (
+	"strings"
+	"time"
 	"fmt"
 	"sort"
 
@@ -73,6 +75,9 @@ type C10Disturbance struct {
 	Faults []C10Fault `json:"faults,omitempty"`
 	// Drift: before script step index At (after the preceding quiesce) apply a third-party step.
 	Drift []C10Drift `json:"drift,omitempty"`
+	// IdleMs: after quiescence the cluster is left alone for this long before the final "changes nothing" round
+	// (the round then happens at a later wall-clock second than the writes before it).
+	IdleMs int `json:"idleMs,omitempty"`
 }
 
 type C10Fault struct {
@@ -169,19 +174,36 @@ func runC10(script *Scenario, d C10Disturbance) (*c10Result, error) {
 	res.proj = projectEndState(r)
 	if ok {
 		// one more full round must change nothing
+		for _, kind := range []string{"Package", "ObjectDeployment", "ObjectSet", "ObjectSetPhase"} {
+			for _, k := range r.W.ListKeys(engine.PKOGroup, kind) {
+				for t := range engine.Conditions(r.W.Store.Peek(k)) {
+					if strings.Contains(t, "/") {
+						r.Labels["mapped-condition-on-"+kind] = true
+					}
+				}
+			}
+		}
+		if d.IdleMs > 0 {
+			time.Sleep(time.Duration(d.IdleMs) * time.Millisecond)
+			r.Labels["idle-before-final-round"] = true
+		}
 		before := r.W.Store.RV()
 		writes := 0
 		from := len(r.W.Store.Trace)
 		if _, _, err := r.Quiesce(); err != nil {
 			return nil, err
 		}
+		detail := ""
 		for _, c := range r.W.Store.Trace[from:] {
 			if c.Actor == "pko" && c.Changed() {
 				writes++
+				if writes <= 4 {
+					detail += fmt.Sprintf("\n  pass %d %s %s %s: %s", c.Pass, c.Verb, c.Source, c.Key, trunc(diffSummary(c.Pre, c.Post), 1600))
+				}
 			}
 		}
 		if r.W.Store.RV() != before || writes > 0 {
-			return res, Violf("C10", "not-stable-at-quiescence", "after reaching quiescence another full round of reconciles performed %d state-changing writes", writes)
+			return res, Violf("C10", "not-stable-at-quiescence", "after reaching quiescence another full round of reconciles performed %d state-changing writes%s", writes, detail)
 		}
 	}
 	return res, nil
@@ -199,4 +221,60 @@ func checkC10(ref, got *c10Result) error {
 		return Violf("C10", "end-state-differs-from-undisturbed-run", "the end state differs from the undisturbed run: %s", firstDiff(ref.proj, got.proj))
 	}
 	return nil
+}
+
+// diffSummary names the top-level sections (and for metadata/status the fields) that differ between two states.
+func diffSummary(pre, post map[string]any) string {
+	if pre == nil || post == nil {
+		return fmt.Sprintf("pre=%v post=%v", pre != nil, post != nil)
+	}
+	out := ""
+	for _, sec := range []string{"metadata", "spec", "status", "data", "objects"} {
+		a, _ := pre[sec].(map[string]any)
+		b, _ := post[sec].(map[string]any)
+		if a == nil && b == nil {
+			if !kubesim.JSONEqual(pre[sec], post[sec]) {
+				out += fmt.Sprintf(" %s: %s -> %s;", sec, trunc(mustJSON(pre[sec]), 150), trunc(mustJSON(post[sec]), 150))
+			}
+			continue
+		}
+		keys := map[string]bool{}
+		for k := range a {
+			keys[k] = true
+		}
+		for k := range b {
+			keys[k] = true
+		}
+		var ks []string
+		for k := range keys {
+			ks = append(ks, k)
+		}
+		sort.Strings(ks)
+		for _, k := range ks {
+			if k == "resourceVersion" || k == "managedFields" {
+				continue
+			}
+			if k == "conditions" {
+				ca, cb := engine.Conditions(pre), engine.Conditions(post)
+				for t, x := range ca {
+					if y, ok := cb[t]; !ok || x != y {
+						out += fmt.Sprintf(" condition %s: %+v -> %+v;", t, x, y)
+					}
+				}
+				for t, y := range cb {
+					if _, ok := ca[t]; !ok {
+						out += fmt.Sprintf(" condition %s: added %+v;", t, y)
+					}
+				}
+				if !kubesim.JSONEqual(a[k], b[k]) {
+					out += fmt.Sprintf(" raw conditions %s -> %s", mustJSON(a[k]), mustJSON(b[k]))
+				}
+				continue
+			}
+			if !kubesim.JSONEqual(a[k], b[k]) {
+				out += fmt.Sprintf(" %s.%s: %s -> %s;", sec, k, trunc(mustJSON(a[k]), 150), trunc(mustJSON(b[k]), 150))
+			}
+		}
+	}
+	return out
 }
